@@ -4,6 +4,7 @@
 # replays/<ID>/<replay-name>.json, so that the class it stands for is exercised by every quick run, whatever the seed.
 n=$1; id=$2; sub=$3; name=$4; note=$5
 cd "$(dirname "$0")/.." || exit 2
+mkdir -p replays/$id
 wt=$(mktemp -d /tmp/vf_keep_XXXXXX); rmdir $wt
 git -C /repo worktree add -q --detach $wt HEAD || exit 2
 git -C $wt apply "$(pwd)/seeded/$n/patch.diff" || { git -C /repo worktree remove --force $wt; exit 3; }
